@@ -133,6 +133,116 @@ func rawHostileChildren(c *core.C, parent *lib.Token, asked []ast.Pred) []Mutant
 	return out
 }
 
+// c02Dangling: T' = T + B1 where B1's check names a string by an index that no table of T'
+// defines (it reads as "<invalid symbol>", so the check fails and T' is refused); the child
+// T' + B2 declares exactly that symbol. If symbol resolution of B1 looks at tables of LATER
+// blocks, B1's check starts to pass and the child is accepted although its parent is refused.
+func c02Dangling(c *core.C, tok *lib.Token, a ast.AuthContent) {
+	ser, err := tok.B.Serialize()
+	if err != nil {
+		return
+	}
+	d, err := wire.DecodeToken(ser)
+	if err != nil || d.Env.ProofKind != wire.ProofSecret || len(d.Env.Proof) != 32 {
+		return
+	}
+	known := map[string]bool{}
+	for _, s := range wire.DefaultSymbols {
+		known[s] = true
+	}
+	n := 0
+	for _, wb := range d.WBlocks {
+		for _, s := range wb.Symbols {
+			known[s] = true
+			n++
+		}
+	}
+	// an authorizer fact with a string the token has never seen
+	var target *ast.Pred
+	pos := -1
+	for i := range a.Facts {
+		for j, t := range a.Facts[i].Terms {
+			if t.K == ast.KStr && !known[t.S] {
+				target, pos = &a.Facts[i], j
+			}
+		}
+	}
+	if target == nil {
+		return
+	}
+	v3 := uint32(3)
+	ctx := ""
+	tab := &wire.Table{}
+	for _, wb := range d.WBlocks {
+		tab.Syms = append(tab.Syms, wb.Symbols...)
+	}
+	added := []string{}
+	q := tab.WPred(*target, &added)
+	// drop the target string from what B1 declares: its index becomes dangling
+	decl := []string{}
+	for _, s := range added {
+		if s != target.Terms[pos].S {
+			decl = append(decl, s)
+		}
+	}
+	// re-intern against a table without the dangling symbol so that indexes are consistent
+	tab2 := &wire.Table{}
+	for _, wb := range d.WBlocks {
+		tab2.Syms = append(tab2.Syms, wb.Symbols...)
+	}
+	added2 := []string{}
+	for _, s := range decl {
+		tab2.Intern(s, &added2)
+	}
+	q = wire.Pred{}
+	for j, t := range target.Terms {
+		if j == pos {
+			q.Terms = append(q.Terms, wire.Term{Tag: wire.TString, U: uint64(wire.Offset + len(tab2.Syms))}) // first free index
+		} else {
+			q.Terms = append(q.Terms, tab2.WTerm(t, &added2))
+		}
+	}
+	q.Name = tab2.Intern(target.Name, &added2)
+	b1 := &wire.Block{Symbols: added2, Context: &ctx, Version: &v3, Checks: []wire.Check{{{Head: wire.Pred{Name: 27}, Body: []wire.Pred{q}}}}}
+	b2 := &wire.Block{Symbols: []string{target.Terms[pos].S}, Context: &ctx, Version: &v3}
+	secret := ed25519.NewKeyFromSeed(d.Env.Proof)
+	p1, s1 := lib.KeyPair(c.Seed, fmt.Sprintf("c02-dang1-%d", c.Idx))
+	p2, s2 := lib.KeyPair(c.Seed, fmt.Sprintf("c02-dang2-%d", c.Idx))
+	parentEnv := d.Env.Clone()
+	parentEnv.Blocks = append(parentEnv.Blocks, wire.Sign(secret, b1.Encode(), p1))
+	parentEnv.ProofKind, parentEnv.Proof = wire.ProofSecret, s1.Seed()
+	childEnv := parentEnv.Clone()
+	childEnv.Blocks = append(childEnv.Blocks, wire.Sign(s1, b2.Encode(), p2))
+	childEnv.ProofKind, childEnv.Proof = wire.ProofSecret, s2.Seed()
+	var pt, ct *biscuit.Biscuit
+	var e1, e2 error
+	pi := lib.Try(func() {
+		pt, e1 = biscuit.Unmarshal(parentEnv.Encode())
+		ct, e2 = biscuit.Unmarshal(childEnv.Encode())
+	})
+	desc := map[string]any{"source": "raw-dangling-symbol-completed-by-child", "token": gen.Texts(tok.Blocks), "authorizer": gen.AuthTexts(a), "dangling_check_on": target.Key(), "completed_symbol": target.Terms[pos].S}
+	if pi != nil {
+		c.Violate("unmarshal-panic/"+pi.Site, pi.Msg, desc)
+		return
+	}
+	if e1 != nil || e2 != nil {
+		c.Count("raw_child_rejected_at_unmarshal:dangling", 1)
+		return
+	}
+	c.Eval(2)
+	po := c02Observe(pt, tok.Pub, a)
+	co := c02Observe(ct, tok.Pub, a)
+	desc["parent"], desc["child"] = po, co
+	c.Count("raw_child_loaded:raw-dangling-symbol-completed-by-child", 1)
+	c.Count("dangling_parent_"+string(po.Class), 1)
+	if po.Class != lib.OK && po.Class != lib.LIMIT && (co.Class == lib.OK || co.Second == lib.OK) {
+		c.Violate("attenuation-widened/raw-dangling-symbol-completed-by-child", fmt.Sprintf("parent with a dangling symbol index is refused (%s); appending a block that only declares the missing symbol makes it accepted", po.Class), desc)
+	}
+	if po.Class != lib.OK {
+		c.NT(core.JSON(desc))
+	}
+}
+
 type c02Obs struct {
 	Class  lib.Class `json:"class"`
 	Second lib.Class `json:"second_authorize"`
@@ -254,6 +364,11 @@ func c02Run(c *core.C) {
 					c.Count("raw_child_loaded:"+m.Class, 1)
 					decide(m.Class, c02Observe(child, tok.Pub, a), desc, true)
 				}
+			}
+			// (iv) a parent whose last block has a DANGLING symbol index in a check, completed by
+			// the symbol table of the appended block (both written raw, signed with the chain's secrets)
+			if parent.Class == lib.OK {
+				c02Dangling(c, tok, a)
 			}
 		}
 	}
